@@ -133,6 +133,14 @@ func (r *Run) PickInts(q, t []int) []int {
 	return q
 }
 
+// PickStrings is PickInts for strings.
+func (r *Run) PickStrings(q, t []string) []string {
+	if r.Thorough() {
+		return t
+	}
+	return q
+}
+
 // Budget sets an internal wall-clock budget; Expired reports when it has passed
 // (the run then stops enumerating, records a cap and still exits 0).
 func (r *Run) Budget(d time.Duration) { r.deadline = r.start.Add(d) }
